@@ -29,7 +29,7 @@ var c17 = core.Register(&core.Prop{
 				out = append(out, "coverage floor: builtin "+b+" never checked")
 			}
 		}
-		for _, k := range []string{"law:left+right", "law:startWith-left", "law:endWith-right", "law:find-contains", "regexp_invalid_patterns"} {
+		for _, k := range []string{"law:left+right", "law:startWith-left", "law:endWith-right", "law:find-contains", "regexp_invalid_patterns", "string_kind_cases"} {
 			if c[k] == 0 {
 				out = append(out, "coverage floor: no "+k)
 			}
@@ -324,9 +324,57 @@ var c17Check = core.Mon(c17, "string-builtins", func(w *core.W, c *StrFnCase) {
 	}
 })
 
-var c17Strings = []string{"", "a", "ab", "abc", "abab", "aaa", "aaaa", "abcabc", "hello world", " x ", "\t a b \n", "中文", "é", "aé中z", "ABC", "MiXeD", "ÀÉ", "a,b,c", "(", "a.b", "  ", "xyzzy", "ß", "İ", "\xff", "a\xffb", " x ", "0", "12.5"}
+var c17Strings = []string{"", "a", "ab", "abc", "abab", "aaa", "aaaa", "abcabc", "hello world", " x ", "\t a b \n", "中文", "é", "aé中z", "ABC", "MiXeD", "ÀÉ", "a,b,c", "(", "a.b", "  ", "xyzzy", "ß", "İ", "\xff", "a\xffb", " x ", "0", "12.5",
+	// format characters that are not white space (trim strips white space only) at the edges, alone and behind white space
+	"\uFEFFid,name", "total\u200B", " \t\u200B \n", "\u2060x\u2060", "\u00ADa\u00AD", "\u200Bx", " \uFEFF", "\u180Ea", "a\u200D", "\u200E b \u200F", "\x00a\x00", "\x1fa\x7f", "\u0085"}
 
 var c17Patterns = []string{"a", "^a", "a$", "^a+$", "a*", "[ab]+", "a|b", "(ab)+", ".", "^$", "\\d+", "\\s", "[^a]", "a{2}", "a{2,}", "(", "[a", "*", "a{2,1}", "\\", "(?i)abc", "中", "^.b", "b?c", "(a)(b)?", "x*", "\\bworld\\b", "[a-c]{3}", "(?P<n>a)", "\\p{Han}+", "a**", "(?<x>a)"}
+
+// StrKindCase: the same text supplied by the caller as a defined type and as its underlying type.
+type StrKindCase struct {
+	Src  string `json:"src"`
+	S    string `json:"s"`
+	Kind string `json:"kind"` // string | bytes | runes
+}
+
+type kStr string
+type kBytes []byte
+type kRunes []rune
+
+// A defined type is converted for a string parameter exactly like its underlying type (json.RawMessage like
+// []byte, a defined string type like string): which Go type names a caller uses is not part of the text.
+var c17Kinds = core.Mon(c17, "string-kinds", func(w *core.W, c *StrKindCase) {
+	var plain, defined interface{}
+	switch c.Kind {
+	case "string":
+		plain, defined = c.S, kStr(c.S)
+	case "bytes":
+		plain, defined = []byte(c.S), kBytes(c.S)
+	default:
+		if !utf8.ValidString(c.S) {
+			w.Skip("runes-of-invalid-utf8")
+			return
+		}
+		plain, defined = []rune(c.S), kRunes(c.S)
+	}
+	w.Eval(2)
+	w.Count("string_kind_cases")
+	w.Nontrivial("kind:" + c.Kind + "|" + c.Src + "|" + c.S)
+	data := func(s interface{}) map[string]interface{} {
+		return map[string]interface{}{"s": s, "t": "a", "list": []interface{}{s, "a"}}
+	}
+	v1, e1, p1, pv1 := resolveIn(data(plain), c.Src)
+	v2, e2, p2, pv2 := resolveIn(data(defined), c.Src)
+	o1, o2 := outcome(v1, e1, p1, pv1), outcome(v2, e2, p2, pv2)
+	if p1 || p2 {
+		w.Violation("string-kinds", "C17/escaped-panic", c, nil, fmt.Sprint(pv1, pv2), c.Src)
+		return
+	}
+	if o1 != o2 {
+		w.Violation("string-kinds", "C17/defined-type-treated-differently:"+c.Kind, c, clipS(o1, 200), clipS(o2, 200),
+			fmt.Sprintf("%s with s=%q supplied as %T and as %T", c.Src, clipS(c.S, 40), plain, defined))
+	}
+})
 
 func init() { c17.Run = runC17 }
 
@@ -358,6 +406,19 @@ func runC17(w *core.W) {
 		}
 	}
 	run := func(c *StrFnCase) { c17Check(w, c); sample(c) }
+	// 0. defined types against their underlying types
+	ki := 0
+	for _, src := range []string{"len(s)", "left(s, 2)", "right(s, 2)", "mid(s, 1, 3)", "upper(s)", "lower(s)", "trim(s)", "startWith(s, t)", "endWith(s, t)", "contains(s, t)", "find(s, t)", "replace(s, t, 'X')", "lpad(s, 'x', 12)", "rpad(s, 'x', 12)",
+		"regexp(s, '^a')", "left(s, 2) + right(s, len(s) - 2)", "startWith(t, s)", "contains(t, s)", "replace(t, s, 'X')", "join(list, '-')", "includes(list, t)", "lpad('a', s, 4)"} {
+		for _, s := range c17Strings {
+			for _, k := range []string{"string", "bytes", "runes"} {
+				ki++
+				if w.Mine(ki) {
+					c17Kinds(w, &StrKindCase{Src: src, S: s, Kind: k})
+				}
+			}
+		}
+	}
 	// 1. exhaustive: every string x every other string as needle; every position
 	si := 0
 	for _, s := range c17Strings {
